@@ -10,7 +10,7 @@ REPO = os.environ.get("VERIF_REPO", "/repo")
 sys.path.insert(0, REPO)
 sys.path.insert(1, VERIF)
 
-from vlib import leanio  # noqa: E402
+from vlib import leanio, anchors  # noqa: E402
 
 TRUSTED_BASE = [
     "Lean 4.33.0 kernel; Mathlib v4.33.0 as checked library code",
@@ -186,6 +186,17 @@ def run_clause(cl, rng, n, driver, stats, replay_input=None):
     return failures, len(inputs), len(seen), samples
 
 
+def _tie_audit(pid):
+    """which model definitions named in this property's theorem statements the driver executes (tools/tie_audit.py)"""
+    try:
+        j = json.load(open(os.path.join(VERIF, "lean", "tie_audit.json")))[pid]
+        return {"model_defs_in_theorem_statements": j["model_defs_in_statements"], "executed_by_driver": j["executed_by_driver"],
+                "bridged_by_proved_equation": len(j["bridged"]), "classified_spec_or_contract": j["classified"],
+                "untied": j["untied"], "from": "lean/tie_audit.json (tools/tie_audit.py --write)"}
+    except Exception:
+        return None
+
+
 def main(argv=None):
     ap = argparse.ArgumentParser()
     ap.add_argument("pid")
@@ -284,6 +295,39 @@ def _main(a, pid, tier, seed, t0):
             # broken tie into an infrastructure error)
             escalated = "timed out"
 
+    # ---------------------------------------------------------------- source anchors: deeper search where the code moved
+    # A function of the files this property is anchored in no longer has the text the model was transcribed from
+    # (lean/anchors.json).  That is not a violation; it is the signal to look harder: extra rounds of every clause with
+    # fresh PRNG streams, until something fails or the time cap is reached.  On the recorded tree nothing changes.
+    try:
+        changed_anchors = anchors.changed(pid, REPO)
+    except Exception as e:
+        changed_anchors = None
+    anchor_rounds = 0
+    if changed_anchors and not all_fail and not a.only and os.environ.get("VERIF_ANCHOR_BOOST", "1") != "0":
+        cap = float(os.environ.get("VERIF_ANCHOR_CAP", "420" if tier == "quick" else "2400"))
+        max_rounds = int(os.environ.get("VERIF_ANCHOR_ROUNDS", "4" if tier == "quick" else "2"))
+        try:
+            for r in range(1, max_rounds + 1):
+                if time.time() - t0 > cap or all_fail:
+                    break
+                rng3 = random.Random(f"{pid}-{seed}-anchor{r}")
+                anchor_rounds = r
+                for cl in clauses:
+                    if time.time() - t0 > cap:
+                        break
+                    st = {}
+                    f, e, d, s = run_clause(cl, rng3, cl.budget.get(tier, cl.budget["quick"]), driver, st)
+                    stats[cl.name + f"@anchor{r}"] = st[cl.name]
+                    all_fail += f
+                    ev += e
+                    dn += d
+                    if f:
+                        break
+        except Timeout:
+            anchor_rounds = "timed out"
+        corr_broken = [f for f in all_fail if f["kind"] == "corr" and not f.get("property_failure")]
+
     # ---------------------------------------------------------------- verdict
     os.makedirs(os.path.join(VERIF, "replays"), exist_ok=True)
     lines, new_viol, known_hit = [], [], {}
@@ -343,6 +387,9 @@ def _main(a, pid, tier, seed, t0):
         "model_ops": driver.ops_sent, "driver_errors": driver.errors,
         "known_findings_hit": {k: v[1] for k, v in known_hit.items()},
         "repo": REPO,
+        "changed_anchors": None if changed_anchors is None else [list(x) for x in changed_anchors][:40],
+        "anchor_rounds": anchor_rounds,
+        "tie_audit": _tie_audit(pid),
     }
     evd = {"property_id": pid, "tier": tier if tier in ("quick", "thorough") else "quick", "seed": seed, "level": level,
            "coverage": cov, "assumptions": getattr(mod, "ASSUMPTIONS", []), "wall_s": round(wall, 2),
